@@ -174,8 +174,14 @@ theorem checked_item (m m' : Msg) (h : checked m = some m') : m'.item = m.item :
   · injection h with h; rw [← h]
   · cases h
 
+theorem checked_valid (m m' : Msg) (h : checked m = some m') : m'.valid = true := by
+  unfold checked at h
+  split at h
+  · injection h with h; rw [← h]; assumption
+  · cases h
+
 theorem finishMsg_wf (name : Bytes) (st fn wb : Int) (dir : Bytes) (item : R Tmpl) (s : PS) (h : OkWf item) (m : Msg)
-    (hm : (finishMsg name st fn wb dir item s).1 = some (some m)) : m.item.wfS = true := by
+    (hm : (finishMsg name st fn wb dir item s).1 = some (some m)) : m.valid = true ∧ m.item.wfS = true := by
   unfold finishMsg at hm
   cases item with
   | stop => simp at hm
@@ -190,10 +196,12 @@ theorem finishMsg_wf (name : Bytes) (st fn wb : Int) (dir : Bytes) (item : R Tmp
         simp only [hk, Option.some.injEq] at hm
         subst hm
         unfold mkMsg at hk
+        refine ⟨checked_valid _ _ hk, ?_⟩
         rw [checked_item _ _ hk]
         exact h it rfl
 
-theorem parseMessage_wf (s : PS) (m : Msg) (hm : (parseMessage s).1 = some (some m)) : m.item.wfS = true := by
+theorem parseMessage_wf (s : PS) (m : Msg) (hm : (parseMessage s).1 = some (some m)) :
+    m.valid = true ∧ m.item.wfS = true := by
   unfold parseMessage at hm
   dsimp only at hm
   split at hm
@@ -201,7 +209,8 @@ theorem parseMessage_wf (s : PS) (m : Msg) (hm : (parseMessage s).1 = some (some
   · exact finishMsg_wf _ _ _ _ _ _ _ (msgItem_wf _) m hm
 
 theorem parseLoop_wf : ∀ (fuel : Nat) (s : PS) (acc : List Msg) (msgs : List Msg) (s' : PS),
-    (∀ m ∈ acc, m.item.wfS = true) → parseLoop fuel s acc = some (msgs, s') → ∀ m ∈ msgs, m.item.wfS = true
+    (∀ m ∈ acc, m.valid = true ∧ m.item.wfS = true) → parseLoop fuel s acc = some (msgs, s') →
+    ∀ m ∈ msgs, m.valid = true ∧ m.item.wfS = true
   | 0, s, acc, msgs, s', hacc, h => by
     simp only [parseLoop, Option.some.injEq, Prod.mk.injEq] at h
     intro m hm; rw [← h.1] at hm; exact hacc m (List.mem_reverse.mp hm)
@@ -223,7 +232,7 @@ theorem parseLoop_wf : ∀ (fuel : Nat) (s : PS) (acc : List Msg) (msgs : List M
 
 /-- every message the token-level parser returns carries a well-formed item -/
 theorem parseToks_wf (toks : List Tok) (msgs : List Msg) (errs warns : List Diag)
-    (h : parseToks toks = .done msgs errs warns) : ∀ m ∈ msgs, m.item.wfS = true := by
+    (h : parseToks toks = .done msgs errs warns) : ∀ m ∈ msgs, m.valid = true ∧ m.item.wfS = true := by
   unfold parseToks at h
   split at h
   · cases h
@@ -233,9 +242,13 @@ theorem parseToks_wf (toks : List Tok) (msgs : List Msg) (errs warns : List Diag
     · injection h with h1 _ _; rw [← h1]; exact this
     · injection h with h1 _ _; rw [← h1]; intro m hm; cases hm
 
-/-- **sml.Parse hands out well-formed items only**, for every input -/
+/-- **sml.Parse hands out valid messages with well-formed items only**, for every input -/
+theorem parse_valid_wf (ual : List Nat) (input : Bytes) (msgs : List Msg) (errs warns : List Diag)
+    (h : parse ual input = .done msgs errs warns) : ∀ m ∈ msgs, m.valid = true ∧ m.item.wfS = true :=
+  parseToks_wf _ msgs errs warns h
+
 theorem parse_wf (ual : List Nat) (input : Bytes) (msgs : List Msg) (errs warns : List Diag)
     (h : parse ual input = .done msgs errs warns) : ∀ m ∈ msgs, m.item.wfS = true :=
-  parseToks_wf _ msgs errs warns h
+  fun m hm => (parse_valid_wf ual input msgs errs warns h m hm).2
 
 end Secs.Sml
